@@ -38,6 +38,7 @@ static void do_call(const std::string &fn, const std::vector<unsigned char> &in)
             gl.assign(b, b + G); gr.assign(b + G + osz, b + G + osz + G); guards = true; free(b); };
         std::string s((const char *)src, n);
         if (fn == "hexenc_c") with_buf(2 * n, [&](unsigned char *o) { hexascii_encode(src, (int)n, o); });
+        else if (fn == "hexdec_c_odd") with_buf(n / 2, [&](unsigned char *o) { hexascii_decode(src, (int)n, o); });   // a text with a dangling last character: room for the whole pairs only
         else if (fn == "hexdec_c") with_buf(n / 2, [&](unsigned char *o) { hexascii_decode(src, (int)n, o); });
         else if (fn == "hexdec_c_inplace") with_buf(n, [&](unsigned char *o) { memcpy(o, src, n); hexascii_decode(o, (int)n, o); });    // decoded over its own text (the prototype has no restrict)
         else if (fn == "hexenc_ptr") { auto r = igris::hexascii_encode(src, n); out.assign(r.begin(), r.end()); }
